@@ -289,9 +289,12 @@ func (g *gen) intExpr(d int) string {
 	case k < 76:
 		g.feat("arr-index")
 		return g.atomArr(d-1, tInt) + "[" + g.indexExpr(d-1) + "]"
-	case k < 80:
+	case k < 78:
 		g.feat("map-index")
 		return g.mapAtom(d-1, tInt) + "[" + g.intKey() + "]"
+	case k < 80:
+		g.feat("map-dot")
+		return g.mapAtom(d-1, tStr) + "." + g.pick("a", "b", "c", "k", "key", "value", "z", "A", "ab", "err", "x1", "nope")
 	case k < 90:
 		if c := g.call(tInt, d-1); c != "" {
 			return c
@@ -1170,6 +1173,36 @@ func (g *gen) errorStmt() string {
 	return "if " + g.boolExpr(1) + " {error(" + g.strLit() + ", " + g.intExpr(1) + ")}"
 }
 
+// higher-order functions, functional iteration with first/rest, accumulation in loops
+func (g *gen) idiomStmt() string {
+	switch g.n(6) {
+	case 0:
+		g.feat("higher-order")
+		ap, f := g.fresh("ap"), g.fresh("q")
+		return fmt.Sprintf("func %s(%s, x) {%s(%s(x))}\nprintln(%s(x => x * 2 + 1, %s), %s((x => x - 1), %s))", ap, f, f, f, ap, g.intLit(), ap, g.intLit())
+	case 1:
+		g.feat("first-rest-recursion")
+		sum := g.fresh("sum")
+		return fmt.Sprintf("func %s(l) {if len(l) == 0 {return 0}\nfirst(l) + %s(rest(l))}\nprintln(%s(%s))", sum, sum, sum, g.arrLit(0, tInt))
+	case 2:
+		g.feat("map-fold")
+		ks, acc, kv := g.fresh("ks"), g.fresh("acc"), g.fresh("kv")
+		return fmt.Sprintf("%s = []\n%s = 0\nfor %s = %s {%s = %s + [%s.key]\n%s = %s + len(%s)}\nprintln(%s, %s)", ks, acc, kv, g.mapLit(0, []ty{tInt, tStr, tAny}[g.n(3)]), ks, ks, kv, acc, acc, kv, ks, acc)
+	case 3:
+		g.feat("string-build")
+		sv, ch := g.fresh("sb"), g.fresh("ch")
+		return fmt.Sprintf("%s = \"\"\nfor %s = %s {%s = %s + %s\nif len(%s) > 3 {%s = %s[1:]}}\nprintln(%s)", sv, ch, g.strLit(), sv, ch, sv, sv, sv, sv, sv)
+	case 4:
+		g.feat("compose-closures")
+		cmp, f1, f2 := g.fresh("cmp"), g.fresh("u"), g.fresh("w")
+		return fmt.Sprintf("func %s(%s, %s) {x => %s(%s(x))}\nprintln(%s(x => x + 1, x => x * 3)(%s))", cmp, f1, f2, f1, f2, cmp, g.intLit())
+	default:
+		g.feat("accumulate-array")
+		acc, i := g.fresh("acc"), g.fresh("i")
+		return fmt.Sprintf("%s = []\nfor %s = %d {%s = %s + [%s * %s]\nif len(%s) > %d {break}}\nprintln(%s, %s[-1], %s[1:3])", acc, i, 2+g.n(11), acc, acc, i, i, acc, 2+g.n(10), acc, acc, acc)
+	}
+}
+
 func (g *gen) stmt(nest int, ret ty) string {
 	g.size++
 	d := 1 + g.n(3)
@@ -1204,6 +1237,9 @@ func (g *gen) stmt(nest int, ret ty) string {
 	case k < 91:
 		return g.catchStmt(d)
 	case k < 92:
+		if g.pct(50) {
+			return g.idiomStmt()
+		}
 		return g.errorStmt()
 	case k < 95:
 		name := g.fresh("l")
